@@ -252,6 +252,9 @@ pub struct World {
     /// file mode creation mask of the process (None: 022)
     #[serde(default)]
     pub umask: Option<u32>,
+    /// standard output is a terminal (a pseudo-terminal in raw mode) instead of a file
+    #[serde(default)]
+    pub stdout_tty: bool,
 }
 
 impl World {
